@@ -64,6 +64,9 @@ func (m *Mutex) Unlock() {
 	}
 	raceRelease(unsafe.Pointer(m))
 	m.locked = false
+	if S.cfg.YieldAfterRelease && m.o.w {
+		Yield("mutex.unlock")
+	}
 }
 
 // RWMutex mirrors sync.RWMutex. Read-locks commute with each other, so an RWMutex is put
@@ -152,6 +155,9 @@ func (m *RWMutex) RUnlock() {
 	}
 	raceReleaseMerge(unsafe.Pointer(&m.wsem))
 	m.r--
+	if S.cfg.YieldAfterRelease && m.inw {
+		Yield("rw.runlock")
+	}
 }
 
 //go:norace
@@ -186,6 +192,9 @@ func (m *RWMutex) Unlock() {
 	}
 	raceRelease(unsafe.Pointer(&m.rsem))
 	m.w = false
+	if S.cfg.YieldAfterRelease && m.inw {
+		Yield("rw.unlock")
+	}
 }
 
 func (m *RWMutex) RLocker() sync.Locker { return (*rlocker)(m) }
